@@ -307,4 +307,20 @@ def NestedFields (P : Parse) (σ : Supplied) (vars : Vars) : Fields → List (St
     (∀ p ∈ lfs, p.1 = name → Nested P σ vars ty false p.2) ∧ NestedFields P σ vars rest lfs
 end
 
+
+mutual
+/-- No object literal inside has two fields of the same name (validation rule "input object field
+    uniqueness", checked by `validateCoercion`). -/
+def Lit.noDup : Lit → Bool
+  | .list xs => Lit.noDupL xs
+  | .obj fs => noDupKeys fs && Lit.noDupF fs
+  | _ => true
+def Lit.noDupL : List Lit → Bool
+  | [] => true
+  | x :: xs => x.noDup && Lit.noDupL xs
+def Lit.noDupF : List (String × Lit) → Bool
+  | [] => true
+  | p :: ps => p.2.noDup && Lit.noDupF ps
+end
+
 end ApiFu.C05
